@@ -488,7 +488,7 @@ def run_driver(exe, args, timeout=600, env=None, stdin=None):
                 other.append(ln)
         else:
             other.append(ln)
-    return results, other, rc, err[-4000:]
+    return results, other, rc, (err if len(err) < 12000 else err[:8000] + "\n...\n" + err[-4000:])
 
 
 def replay_paths(exe, paths, fmt_action, name, nproc=None, timeout=900, extra_args=(), env=None):
@@ -519,7 +519,7 @@ def replay_paths(exe, paths, fmt_action, name, nproc=None, timeout=900, extra_ar
     with ThreadPoolExecutor(max_workers=len(files)) as ex:
         for fn, (results, other, rc, err) in ex.map(one, files):
             if not results:
-                agg["crashed"].append(dict(file=fn, rc=rc, stderr=err[-1500:], stdout="\n".join(other[-10:])))
+                agg["crashed"].append(dict(file=fn, rc=rc, stderr=err[:6000], stdout="\n".join(other[-10:])))
                 continue
             for r in results:
                 agg["paths"] += r.get("paths", 0)
